@@ -118,7 +118,7 @@ Qed.
 Record Inv (s : ast) : Prop := {
   inv_pub : forall j, is_ev (a_log s) j = true -> j <= a_lastpub s -> In j (a_stream s);
   inv_disp : forall i, a_disp s = Some i ->
-             a_first s <= i /\ a_lastpub s < i /\ i <= S (length (a_log s)) /\
+             a_lastpub s < i /\ i <= S (length (a_log s)) /\
              forall j, is_ev (a_log s) j = true -> j < i -> In j (a_stream s);
   inv_order : fs_ok (a_log s) [] (a_stream s);
   inv_replay : replay_lastpub (a_log s) 1 (a_snap_idx s) (a_snap s) = a_lastpub s;
@@ -140,12 +140,11 @@ Proof.
 Qed.
 
 Lemma compact_ok_spec s nf : compact_ok s nf = true ->
-  (forall j, is_ev (a_log s) j = true -> j < nf -> j <= a_lastpub s) /\ (forall i, a_disp s = Some i -> nf <= i).
+  forall j, is_ev (a_log s) j = true -> j < nf -> j <= a_lastpub s.
 Proof.
-  unfold compact_ok. rewrite andb_true_iff, forallb_forall. intros [H1 H2]. split.
-  - intros j Hj Hlt. pose proof (is_ev_bound _ _ Hj) as Hb. specialize (H1 j ltac:(apply in_seq; lia)). rewrite Hj in H1. cbn in H1.
-    apply Nat.leb_le in H1. exact H1.
-  - intros i Hi. rewrite Hi in H2. apply Nat.leb_le in H2. exact H2.
+  unfold compact_ok. rewrite forallb_forall. intros H1.
+  intros j Hj Hlt. pose proof (is_ev_bound _ _ Hj) as Hb. specialize (H1 j ltac:(apply in_seq; lia)). rewrite Hj in H1. cbn in H1.
+  apply Nat.leb_le in H1. exact H1.
 Qed.
 
 Lemma entry_at_ev log i : entry_at log i = Some (ECmd true) -> is_ev log i = true.
@@ -160,7 +159,7 @@ Proof.
     by (intros j Hj Hle; rewrite is_ev_app_old in Hj by exact Hle; exact Hj).
   constructor; cbn [a_log a_first a_lastpub a_snap a_snap_idx a_stream a_disp]; rewrite ?app_length; cbn [length]; try lia.
   - intros j Hj Hle. apply Hpub; [apply Hold; [exact Hj|lia]|exact Hle].
-  - intros i Hi. destruct (Hdisp i Hi) as (H1 & H2 & H3 & H4). repeat split; try lia. intros j Hj Hlt. apply H4; [apply Hold; [exact Hj|lia]|exact Hlt].
+  - intros i Hi. destruct (Hdisp i Hi) as (H2 & H3 & H4). repeat split; try lia. intros j Hj Hlt. apply H4; [apply Hold; [exact Hj|lia]|exact Hlt].
   - apply fs_ok_grow. exact Hord.
   - rewrite replay_app, Hrep. cbn [replay_lastpub]. destruct e as [ev| |j]; [reflexivity|reflexivity|exfalso; apply (Hne j); reflexivity].
   - intros j Hj Hlt. apply Hcomp; [apply Hold; [exact Hj|lia]|exact Hlt].
@@ -181,8 +180,11 @@ Proof.
   - (* stop *)
     injection H as <-. constructor; cbn [a_log a_first a_lastpub a_snap a_snap_idx a_stream a_disp]; try assumption. intros i [=].
   - (* dispatcher step *)
-    destruct (a_disp s) as [i|] eqn:Ed; [|discriminate]. destruct (Hdisp i eq_refl) as (D1 & D2 & D3 & D4).
-    destruct (Nat.ltb_spec (length (a_log s)) i); [discriminate|]. destruct (Nat.ltb_spec i (a_first s)); [discriminate|].
+    destruct (a_disp s) as [i|] eqn:Ed; [|discriminate]. destruct (Hdisp i eq_refl) as (D2 & D3 & D4).
+    destruct (Nat.ltb_spec (length (a_log s)) i); [discriminate|]. destruct (Nat.ltb_spec i (a_first s)) as [Hgone|D1].
+    { (* the entry it stands at was compacted: it continues at the first entry there is *)
+      injection H as <-. constructor; cbn [a_log a_first a_lastpub a_snap a_snap_idx a_stream a_disp]; try assumption.
+      intros i0 [= <-]. repeat split; try lia. intros j Hj Hlt. apply Hpub; [exact Hj|apply Hcomp; assumption]. }
     destruct (entry_at (a_log s) i) as [[[|]| |j]|] eqn:Ee.
     + (* an event entry *)
       pose proof (entry_at_ev _ _ Ee) as Hev. destruct o; injection H as <-.
@@ -212,9 +214,8 @@ Proof.
       intros i0 [= <-]. repeat split; try lia. intros j Hj Hlt. destruct (Nat.eq_dec j i) as [->|Hn]; [unfold is_ev in Hj; rewrite Ee in Hj; discriminate|apply D4; [exact Hj|lia]].
   - (* snapshot *)
     destruct (compact_ok s (Nat.max (a_first s) (S (length (a_log s)) - t))) eqn:Ec; [|discriminate]. injection H as <-.
-    destruct (compact_ok_spec _ _ Ec) as [C1 C2].
+    pose proof (compact_ok_spec _ _ Ec) as C1.
     constructor; cbn [a_log a_first a_lastpub a_snap a_snap_idx a_stream a_disp]; try assumption; try lia.
-    + intros i Hi. destruct (Hdisp i Hi) as (D1 & D2 & D3 & D4). specialize (C2 i Hi). repeat split; try lia. exact D4.
     + apply replay_above. lia.
   - (* restart *)
     injection H as <-. rewrite Hrep. constructor; cbn [a_log a_first a_lastpub a_snap a_snap_idx a_stream a_disp]; try assumption. intros i [=].
@@ -226,8 +227,8 @@ Proof.
   intros HI. destruct x as [e| | |o|t|]; cbn [astep]; try discriminate.
   - destruct e; discriminate.
   - destruct (a_disp s); discriminate.
-  - destruct (a_disp s) as [i|] eqn:Ed; [|discriminate]. destruct (inv_disp s HI i Ed) as (D1 & _).
-    destruct (Nat.ltb_spec (length (a_log s)) i); [discriminate|]. destruct (Nat.ltb_spec i (a_first s)); [lia|].
+  - destruct (a_disp s) as [i|] eqn:Ed; [|discriminate].
+    destruct (Nat.ltb_spec (length (a_log s)) i); [discriminate|]. destruct (Nat.ltb_spec i (a_first s)); [discriminate|].
     destruct (entry_at (a_log s) i) as [[[|]| |j]|]; try discriminate. destruct o; discriminate.
   - destruct (compact_ok s _); discriminate.
 Qed.
@@ -248,7 +249,7 @@ Proof. intros H Hin. apply (fs_ok_in (a_log s) (a_stream s) [] j); [apply (inv_o
 Theorem activity_at_least_once xs s i : arun true init xs = Ok s -> a_disp s = Some i -> length (a_log s) < i ->
   all_delivered (a_log s) (a_stream s) = true.
 Proof.
-  intros H Hd Hi. pose proof (proj2 (run_inv xs init inv_init) s H) as HI. destruct (inv_disp s HI i Hd) as (_ & _ & _ & D4).
+  intros H Hd Hi. pose proof (proj2 (run_inv xs init inv_init) s H) as HI. destruct (inv_disp s HI i Hd) as (_ & _ & D4).
   unfold all_delivered. apply forallb_forall. intros k Hk. apply in_seq in Hk. destruct (is_ev (a_log s) k) eqn:Ek; [|reflexivity]. cbn.
   apply existsb_eqb_in. apply D4; [exact Ek|lia].
 Qed.
@@ -266,6 +267,18 @@ Proof. apply (run_inv xs init inv_init). Qed.
    dispatcher of the next controller asks for index 1 *)
 Theorem pinned_panics : arun false init [XCommit (ECmd true); XStart; XStep PubOk; XStop; XSnapshot 0; XRestart; XStart; XStep PubOk] = Panic.
 Proof. vm_compute. reflexivity. Qed.
+
+(* the dispatcher trails behind entries that do not wake it (two barriers after the recorded event),
+   the log is compacted with every event published, the next operation wakes it: the code before the
+   second repair panics on the barrier that is gone, the repaired one goes on and delivers *)
+Definition trailing_schedule : list step :=
+  [XCommit (ECmd true); XStart; XStep PubOk; XCommit ENoop; XCommit ENoop; XSnapshot 0; XCommit (ECmd true);
+   XStep PubOk; XStep PubOk; XStep PubOk; XStep PubOk].
+
+Theorem trailing_dispatcher_survives :
+  option_map a_stream (match arun true init trailing_schedule with Ok s => Some s | _ => None end) = Some [1; 5] /\
+  arun false init trailing_schedule = Panic.
+Proof. vm_compute. split; reflexivity. Qed.
 
 (* ... or, with the entries still there, publishes the whole history again *)
 Theorem pinned_republishes_everything :
